@@ -67,11 +67,12 @@ vars == <<par, stg>>
 
 Init == /\ stg = 0
         /\ par \in IF Family = "chars" THEN { <<s, pl>> : s \in Seqs(Len(Chars), MaxLen), pl \in Placements }
+                    ELSE IF Family = "chars-start" THEN { <<s, "start">> : s \in Seqs(Len(Chars), MaxLen) }     \* one placement: a third of the states
                     ELSE IF Family = "comments" THEN { <<s, pl>> : s \in Seqs(Len(CChars), MaxLen), pl \in CPlacements }
                     ELSE { <<s, lay>> : s \in Seqs(Len(Lexemes), MaxLen), lay \in Layouts }
 Next == stg = 0 /\ stg' = 1 /\ UNCHANGED par
 
-TextOf(p) == IF Family = "chars" THEN TextOfChars(p[1], p[2]) ELSE IF Family = "comments" THEN TextOfComment(p[1], p[2]) ELSE TextOfLexemes(p[1], p[2])
+TextOf(p) == IF Family \in {"chars", "chars-start"} THEN TextOfChars(p[1], p[2]) ELSE IF Family = "comments" THEN TextOfComment(p[1], p[2]) ELSE TextOfLexemes(p[1], p[2])
 
 (* theorem of the enumeration itself: the number of cases is sum_{i<=MaxLen} k^i times the placements *)
 Emit == stg = 1 => PrintT(ToJson([t |-> TextOf(par), n |-> Len(par[1]), w |-> par[2]]))
